@@ -17,6 +17,16 @@ package lib
 // injected liveness tester, the requests the peer-share client makes (recording http.RoundTripper).
 // The oracle is the property's iff, computed from how the cell was constructed (never from the code's
 // or the model's output).
+//
+// History dimension (runSeq, model `c07s`): sequences of 1–3 messages of one session (now and then a
+// second session), each later message differing from the first in any subset of the fields admission
+// looks at (registrant, source, flags, transport, generation, covert address, registrar overrides,
+// family support, library version, payload), each with its own liveness verdict. After EVERY message,
+// on every path (cells, sequences, concurrent copies), oracleStored examines every registration that
+// GetRegistrations returns for any phantom of the registry and evaluates the admission conditions on
+// the values STORED in the returned object (covert policy, phantom blocklist, families, registrant,
+// generation, probe log, announcement log) — the connection handler dials and matches on those values,
+// not on the message that was admitted first. The stored objects are also part of the correspondence.
 
 import (
 	"bytes"
@@ -30,6 +40,7 @@ import (
 	"os"
 	"path/filepath"
 	"runtime"
+	"sort"
 	"strconv"
 	"strings"
 	"sync"
@@ -118,10 +129,39 @@ var c07Transports = []struct {
 	{"prefix", pb.TransportType_Prefix, true, true, false},
 }
 
+// covert addresses (new entries are appended: the index is part of the replay format). The decision table uses the first
+// three; the others are reached by the one-condition slice and by the message sequences (a second and a third permitted
+// address, one of them in a spelling the policy rewrites; refused addresses of three more kinds).
 var c07Coverts = []struct {
 	addr string
 	ok   bool
-}{{"192.0.2.77:443", true}, {"10.1.2.3:443", false}, {"no port here", false}}
+}{{"192.0.2.77:443", true}, {"10.1.2.3:443", false}, {"no port here", false},
+	{"198.51.100.20:8443", true}, {"[2001:DB8:0:0::77]:443", true}, {"10.200.0.1:80", false}, {"[::ffff:10.9.9.9]:443", false}, {"0.0.0.0:443", false}}
+
+// the covert blocklist of every station of the harness
+const c07CovertBlocklist = "10.0.0.0/8"
+
+// c07CovertPermitted is the covert policy of the harness's stations, evaluated by the harness itself on a stored covert
+// address: a literal address with a port, not unspecified, outside the blocklisted range. (A connectable registration
+// holds the policy's answer, which is always a literal.)
+func c07CovertPermitted(s string) bool {
+	host, port, err := net.SplitHostPort(s)
+	if err != nil {
+		return false
+	}
+	if _, err := strconv.ParseUint(port, 10, 16); err != nil {
+		return false
+	}
+	ip := net.ParseIP(host)
+	if ip == nil || ip.IsUnspecified() {
+		return false
+	}
+	_, blocked, err := net.ParseCIDR(c07CovertBlocklist)
+	if err != nil {
+		panic(err)
+	}
+	return !blocked.Contains(ip)
+}
 
 // registrar overrides of the table; inside = the override address lies in the blocklisted range of
 // its family; v6OK = the IPv6 override (if any) is an address of that family; tparams: the response
@@ -270,6 +310,7 @@ type c07Event struct {
 	port    int
 	proto   int
 	body    []byte
+	live    bool // 'P': what the tester answered
 }
 
 type c07Recorder struct {
@@ -311,7 +352,7 @@ type c07Live struct {
 }
 
 func (l c07Live) PhantomIsLive(addr string, port uint16) (bool, error) {
-	l.rec.add(c07Event{kind: 'P', phantom: addr, port: int(port)})
+	l.rec.add(c07Event{kind: 'P', phantom: addr, port: int(port), live: *l.live})
 	if *l.live {
 		return true, errors.New("phantom picked up the connection")
 	}
@@ -392,7 +433,7 @@ func (w *c07World) manager(st c07Station) *RegistrationManager {
 		return rm
 	}
 	conf := &RegConfig{EnableIPv4: st.e4, EnableIPv6: st.e6, EnableShareOverAPI: st.share, PreshareEndpoint: c07Endpoint,
-		PhantomBlocklist: c07Blocklists[st.block], CovertBlocklistSubnets: []string{"10.0.0.0/8"}}
+		PhantomBlocklist: c07Blocklists[st.block], CovertBlocklistSubnets: []string{c07CovertBlocklist}}
 	if err := conf.ParseBlocklists(); err != nil {
 		w.t.Fatal(err)
 	}
@@ -663,6 +704,126 @@ func (w *c07World) wire(rm *RegistrationManager, st c07Station, c c07Cell, secre
 	return wire, selectorOK
 }
 
+// directBuild: what NewRegistrationC2SWrapper answers on its own for the two families of one (decodable) message
+func (w *c07World) directBuild(rm *RegistrationManager, raw []byte) (fams [2]c07Fam) {
+	for i, v6 := range []bool{false, true} {
+		parsed := &pb.C2SWrapper{}
+		if err := proto.Unmarshal(raw, parsed); err != nil {
+			w.t.Fatal(err)
+		}
+		if parsed.GetRegistrationAddress() == nil {
+			parsed.RegistrationAddress = make([]byte, 16)
+		}
+		func() {
+			defer func() {
+				if r := recover(); r != nil {
+					fams[i].kind = "panic"
+				}
+			}()
+			reg, err := rm.NewRegistrationC2SWrapper(parsed, v6)
+			fams[i].kind = c07BuildKind(err)
+			if err == nil {
+				fams[i].reg = reg
+			}
+		}()
+	}
+	return fams
+}
+
+// ingestOne sends one wire message through the real parseRegMessage + ingestRegistration and records what happened.
+// shareFam: which family's registration may be shared (its request is then waited for).
+func (w *c07World) ingestOne(rm *RegistrationManager, raw []byte, shareFam [2]bool, p *c07Pass) {
+	var regs []*DecoyRegistration
+	var err error
+	func() {
+		defer func() {
+			if r := recover(); r != nil {
+				err = fmt.Errorf("panic: %v", r)
+				p.parse = "panic"
+			}
+		}()
+		regs, err = rm.parseRegMessage(raw)
+	}()
+	if p.parse == "" {
+		if err != nil {
+			p.parse = "err"
+		} else {
+			p.parse = fmt.Sprintf("n=%d", len(regs))
+		}
+	}
+	p.nregs = len(regs)
+	var evStrs []string
+	for _, reg := range regs {
+		if reg == nil {
+			continue
+		}
+		fi := 0
+		if reg.PhantomIp.To4() == nil {
+			fi = 1
+		}
+		func() {
+			defer func() {
+				if r := recover(); r != nil {
+					evStrs = append(evStrs, fmt.Sprintf("panic:%v", r))
+				}
+			}()
+			rm.ingestRegistration(reg)
+		}()
+		w.quiesce(shareFam[fi])
+		evs := w.rec.take()
+		p.evs = append(p.evs, evs...)
+		// canonical order within one registration: probes, shares, announcements (the share
+		// request runs in its own goroutine, so its position relative to the announcement is
+		// not fixed; its position relative to the probe is, and is checked by the oracle)
+		for _, k := range []byte{'P', 'S', 'A', 'U'} {
+			for _, e := range evs {
+				if e.kind != k {
+					continue
+				}
+				switch k {
+				case 'P':
+					evStrs = append(evStrs, fmt.Sprintf("P:%s:%d", c07Canon(net.ParseIP(e.phantom)), e.port))
+				case 'S':
+					sh := &pb.C2SWrapper{}
+					if err := proto.Unmarshal(e.body, sh); err != nil {
+						evStrs = append(evStrs, "S:undecodable")
+						continue
+					}
+					evStrs = append(evStrs, fmt.Sprintf("S:%s:%d:%s", c07Canon(reg.PhantomIp), int(sh.GetRegistrationSource()), vlib.B(sh.GetRegistrationPayload().GetFlags().GetPrescanned())))
+				case 'A':
+					evStrs = append(evStrs, fmt.Sprintf("A:%s:%d:%d", e.phantom, e.port, e.proto))
+				case 'U':
+					evStrs = append(evStrs, "U:"+e.phantom)
+				}
+			}
+		}
+	}
+	p.evsStr = strings.Join(evStrs, ",")
+}
+
+// famStates: observable state of each family's registration (looked up by the key of the directly built one)
+func (w *c07World) famStates(rm *RegistrationManager, fams [2]c07Fam, p *c07Pass) {
+	var ss []string
+	for i := range fams {
+		f := &fams[i]
+		if f.reg == nil {
+			ss = append(ss, "-")
+			continue
+		}
+		fs := &p.fam[i]
+		tr := rm.registeredDecoys.RegistrationExists(f.reg)
+		fs.tracked, fs.valid = tr != nil, tr != nil && tr.Valid
+		if tr != nil {
+			fs.count = int(tr.regCount)
+		}
+		if t, ok := rm.registeredDecoys.transports[f.reg.Transport]; ok {
+			_, fs.connect = rm.GetRegistrations(f.reg.PhantomIp)[t.GetIdentifier(f.reg)]
+		}
+		ss = append(ss, fmt.Sprintf("%s:%s:%s:%d:%s", c07Canon(f.reg.PhantomIp), vlib.B(fs.tracked), vlib.B(fs.valid), fs.count, vlib.B(fs.connect)))
+	}
+	p.state = strings.Join(ss, ",")
+}
+
 // runCell executes one cell on the implementation; returns the model line, the implementation's
 // canonical answer, and evaluates the property oracle.
 func (w *c07World) runCell(st c07Station, c c07Cell, secret []byte) (string, string) {
@@ -694,32 +855,12 @@ func (w *c07World) runCell(st c07Station, c c07Cell, secret []byte) (string, str
 	}
 	var fams [2]c07Fam
 	if !c.garbage {
-		// ---- direct per-family construction (what NewRegistrationC2SWrapper answers on its own)
-		for i, v6 := range []bool{false, true} {
-			parsed := &pb.C2SWrapper{}
-			if err := proto.Unmarshal(raws[0], parsed); err != nil {
-				w.t.Fatal(err)
-			}
-			if parsed.GetRegistrationAddress() == nil {
-				parsed.RegistrationAddress = make([]byte, 16)
-			}
-			func() {
-				defer func() {
-					if r := recover(); r != nil {
-						fams[i].kind = "panic"
-					}
-				}()
-				reg, err := rm.NewRegistrationC2SWrapper(parsed, v6)
-				fams[i].kind = c07BuildKind(err)
-				if err == nil {
-					fams[i].reg = reg
-				}
-			}()
-		}
+		fams = w.directBuild(rm, raws[0])
 	}
 
 	// ---- two passes through the real ingest path: the message, then the second message of the session
 	var passes [2]c07Pass
+	var hist []c07Event
 	for pi := range passes {
 		p := &passes[pi]
 		w.rec.take()
@@ -729,92 +870,13 @@ func (w *c07World) runCell(st c07Station, c c07Cell, secret []byte) (string, str
 			fresh := pi == 0 || !passes[0].fam[fi].tracked
 			shareFam[fi] = fresh && c07Expect(st, cells[pi], v6).mayShare
 		}
-		var regs []*DecoyRegistration
-		var err error
-		func() {
-			defer func() {
-				if r := recover(); r != nil {
-					err = fmt.Errorf("panic: %v", r)
-					p.parse = "panic"
-				}
-			}()
-			regs, err = rm.parseRegMessage(raws[pi])
-		}()
-		if p.parse == "" {
-			if err != nil {
-				p.parse = "err"
-			} else {
-				p.parse = fmt.Sprintf("n=%d", len(regs))
-			}
+		w.ingestOne(rm, raws[pi], shareFam, p)
+		w.famStates(rm, fams, p)
+		// every registration that lookups return now holds values that passed every admission condition
+		hist = append(hist, p.evs...)
+		if selOK {
+			w.oracleStored(st, rm, hist, replay, []string{"", "second message: "}[pi])
 		}
-		p.nregs = len(regs)
-		var evStrs []string
-		for _, reg := range regs {
-			if reg == nil {
-				continue
-			}
-			fi := 0
-			if reg.PhantomIp.To4() == nil {
-				fi = 1
-			}
-			func() {
-				defer func() {
-					if r := recover(); r != nil {
-						evStrs = append(evStrs, fmt.Sprintf("panic:%v", r))
-					}
-				}()
-				rm.ingestRegistration(reg)
-			}()
-			w.quiesce(shareFam[fi])
-			evs := w.rec.take()
-			p.evs = append(p.evs, evs...)
-			// canonical order within one registration: probes, shares, announcements (the share
-			// request runs in its own goroutine, so its position relative to the announcement is
-			// not fixed; its position relative to the probe is, and is checked below)
-			for _, k := range []byte{'P', 'S', 'A', 'U'} {
-				for _, e := range evs {
-					if e.kind != k {
-						continue
-					}
-					switch k {
-					case 'P':
-						evStrs = append(evStrs, fmt.Sprintf("P:%s:%d", c07Canon(net.ParseIP(e.phantom)), e.port))
-					case 'S':
-						sh := &pb.C2SWrapper{}
-						if err := proto.Unmarshal(e.body, sh); err != nil {
-							evStrs = append(evStrs, "S:undecodable")
-							continue
-						}
-						evStrs = append(evStrs, fmt.Sprintf("S:%s:%d:%s", c07Canon(reg.PhantomIp), int(sh.GetRegistrationSource()), vlib.B(sh.GetRegistrationPayload().GetFlags().GetPrescanned())))
-					case 'A':
-						evStrs = append(evStrs, fmt.Sprintf("A:%s:%d:%d", e.phantom, e.port, e.proto))
-					case 'U':
-						evStrs = append(evStrs, "U:"+e.phantom)
-					}
-				}
-			}
-		}
-		p.evsStr = strings.Join(evStrs, ",")
-		// observable state of each family's registration after this pass
-		var ss []string
-		for i := range fams {
-			f := &fams[i]
-			if f.reg == nil {
-				ss = append(ss, "-")
-				continue
-			}
-			fs := &p.fam[i]
-			tr := rm.registeredDecoys.RegistrationExists(f.reg)
-			fs.tracked, fs.valid = tr != nil, tr != nil && tr.Valid
-			if tr != nil {
-				fs.count = int(tr.regCount)
-			}
-			if t, ok := rm.registeredDecoys.transports[f.reg.Transport]; ok {
-				_, fs.connect = rm.GetRegistrations(f.reg.PhantomIp)[t.GetIdentifier(f.reg)]
-			}
-			ss = append(ss, fmt.Sprintf("%s:%s:%s:%d:%s", c07Canon(f.reg.PhantomIp), vlib.B(fs.tracked), vlib.B(fs.valid), fs.count, vlib.B(fs.connect)))
-		}
-		p.state = strings.Join(ss, ",")
 	}
 
 	var impl string
@@ -894,6 +956,11 @@ func c07Expect(st c07Station, c c07Cell, v6 bool) c07Want {
 	paramsOK := tr.paramsOK
 	if ov.tparams != 0 && !c.disableOv {
 		paramsOK = ov.tparams == 1
+	}
+	if c.libver < 3 {
+		// clients older than port randomisation: the min transport reads whatever parameters they send as "no
+		// randomisation", the prefix transport did not exist for them and refuses
+		paramsOK = tr.tt == pb.TransportType_Min
 	}
 	fail(paramsOK, "transport parameters parse")
 	if v6 {
@@ -1099,6 +1166,326 @@ func (w *c07World) oraclePass(st c07Station, c c07Cell, fams [2]c07Fam, pass, pr
 }
 
 // ---------------------------------------------------------------------------------------------
+// the property on what a connectable registration HOLDS: every registration that GetRegistrations returns — after any
+// message, in particular after further messages of the same session that differ from the first one — holds values that
+// passed every admission condition. Ground truth: the conditions evaluated by the harness (its own tables, net.ParseCIDR,
+// its own covert policy) on the values stored in the returned object — not on any message, and not on what the model says.
+// hist: every probe and announcement since the registry was emptied.
+
+func c07InCIDRs(cidrs []string, ip net.IP) bool {
+	for _, c := range cidrs {
+		_, n, err := net.ParseCIDR(c)
+		if err != nil {
+			panic(err)
+		}
+		if n.Contains(ip) {
+			return true
+		}
+	}
+	return false
+}
+
+func (w *c07World) oracleStored(st c07Station, rm *RegistrationManager, hist []c07Event, replay, tag string) {
+	rd := rm.registeredDecoys
+	rd.m.RLock()
+	var phantoms []string
+	for ph := range rd.decoys {
+		phantoms = append(phantoms, ph)
+	}
+	rd.m.RUnlock()
+	sort.Strings(phantoms)
+	for _, ph := range phantoms {
+		regs := rm.GetRegistrations(net.ParseIP(ph))
+		var ids []string
+		for id := range regs {
+			ids = append(ids, id)
+		}
+		sort.Strings(ids)
+		for _, id := range ids {
+			w.out.Checked()
+			w.out.Count("stored-oracle:connectable-registrations-examined")
+			// what the connection handler receives is the stored object itself
+			reg, ok := regs[id].(*DecoyRegistration)
+			if !ok || reg == nil {
+				w.out.OracleFail("C07:connectable-holds-unadmitted:not-a-registration", fmt.Sprintf("%sGetRegistrations(%s)[…] is %T", tag, ph, regs[id]), replay)
+				continue
+			}
+			fam, v4 := "IPv6", reg.PhantomIp.To4() != nil
+			if v4 {
+				fam = "IPv4"
+			}
+			fail := func(cond, what string) {
+				w.out.OracleFail("C07:connectable-holds-unadmitted:"+strings.ReplaceAll(cond, " ", "-"),
+					fmt.Sprintf("%sthe %s registration returned for phantom %s holds values for which this does not hold: %s — %s", tag, fam, ph, cond, what), replay)
+			}
+			// stored under its own phantom and identifier (what connections are matched on)
+			if t, ok := rd.transports[reg.Transport]; !ok {
+				fail("enabled transport", fmt.Sprintf("stored transport %s", reg.Transport))
+			} else if reg.PhantomIp.String() != ph || t.GetIdentifier(reg) != id {
+				fail("stored under its own phantom and identifier", fmt.Sprintf("stored phantom %s", reg.PhantomIp))
+			}
+			if reg.Transport != pb.TransportType_Min && reg.Transport != pb.TransportType_Prefix {
+				fail("enabled transport", fmt.Sprintf("stored transport %s", reg.Transport))
+			}
+			if reg.PhantomIp.To16() == nil || (v4 && !st.e4) || (!v4 && !st.e6) {
+				fail("family enabled on the station", fmt.Sprintf("stored phantom %s, station v4=%v v6=%v", reg.PhantomIp, st.e4, st.e6))
+			}
+			if c2s := reg.originalC2S; c2s == nil || (v4 && !c2s.GetV4Support()) || (!v4 && !c2s.GetV6Support()) {
+				fail("client supports the family", fmt.Sprintf("stored client message: v4support=%v v6support=%v", c2s.GetV4Support(), c2s.GetV6Support()))
+			}
+			if c07InCIDRs(c07Blocklists[st.block], reg.PhantomIp) {
+				fail("phantom not blocklisted", fmt.Sprintf("stored phantom %s, blocklist %v", reg.PhantomIp, c07Blocklists[st.block]))
+			}
+			if ra := reg.registrationAddr; len(ra) != 4 && len(ra) != 16 {
+				fail("registrant address well-formed", fmt.Sprintf("stored registrant of %d bytes", len(ra)))
+			} else if v4 && ra.To4() == nil {
+				fail("IPv4 registration needs an IPv4 registrant", fmt.Sprintf("stored phantom %s, stored registrant %s", reg.PhantomIp, ra))
+			} else if (c07Geo{}).isErr(ra) {
+				fail("geoip lookup succeeds", fmt.Sprintf("stored registrant %s", ra))
+			}
+			genOK := false
+			for _, g := range c07Gens {
+				if g.gen == reg.DecoyListVersion && g.known && ((v4 && g.has4) || (!v4 && g.has6)) {
+					genOK = true
+				}
+			}
+			if !genOK {
+				fail("known generation with subnets of the family", fmt.Sprintf("stored generation %d", reg.DecoyListVersion))
+			}
+			// the covert address that would be dialed: the harness's own policy and the station's agree that it passes
+			if got, _ := rm.ParseOrResolveBlocklisted(reg.Covert); !c07CovertPermitted(reg.Covert) || got == "" {
+				fail("covert address passes the policy", fmt.Sprintf("stored covert address %q (station's policy answers %q)", reg.Covert, got))
+			} else if got != reg.Covert {
+				w.out.Count("stored-oracle:stored-covert-not-in-the-policy's-spelling")
+			}
+			// stored as needing a liveness probe: its phantom and port were probed and did not answer
+			if v4 && !reg.PreScanned() {
+				probed := false
+				for _, e := range hist {
+					if e.kind == 'P' && e.phantom == reg.PhantomIp.String() && e.port == int(reg.PhantomPort) && !e.live {
+						probed = true
+					}
+				}
+				if !probed {
+					fail("phantom did not answer the liveness probe", fmt.Sprintf("stored as not pre-scanned, port %d: no unanswered probe of that phantom and port", reg.PhantomPort))
+				}
+			}
+			// connectable as what was announced to the detector
+			announced := false
+			for _, e := range hist {
+				if e.kind == 'A' && e.phantom == c07Canon(reg.PhantomIp) && e.port == int(reg.PhantomPort) && e.proto == int(reg.PhantomProto) {
+					announced = true
+				}
+			}
+			if !announced {
+				fail("announced to the detector as stored", fmt.Sprintf("stored port %d proto %d: no such announcement", reg.PhantomPort, reg.PhantomProto))
+			}
+		}
+	}
+}
+
+// objects lists every stored registration object (tracked, valid or not) with the fields admission looked at
+func (w *c07World) objects(rm *RegistrationManager) string {
+	rd := rm.registeredDecoys
+	rd.m.RLock()
+	defer rd.m.RUnlock()
+	var ss []string
+	for ph, m := range rd.decoys {
+		for id, reg := range m {
+			src := 0
+			if reg.RegistrationSource != nil {
+				src = int(*reg.RegistrationSource)
+			}
+			ss = append(ss, fmt.Sprintf("%s/%s=x%s:%d:%s:%s:%d:%d:%d:%s", c07Canon(net.ParseIP(ph)), hex.EncodeToString([]byte(id)), hex.EncodeToString([]byte(reg.Covert)), src,
+				vlib.B(reg.PreScanned()), hex.EncodeToString(reg.registrationAddr), reg.PhantomPort, int(reg.PhantomProto), int(reg.Transport), vlib.B(reg.originalC2S.GetV4Support())))
+		}
+	}
+	sort.Strings(ss)
+	return strings.Join(ss, ",")
+}
+
+// ---------------------------------------------------------------------------------------------
+// sequences of messages: 1–3 messages, of one session (same shared secret, hence the same phantom and identifier unless a
+// message changes what they are derived from) or of two sessions, each with its own liveness verdict. After every message:
+// the per-message oracle (a registration that is already tracked shows no effect, one that is not is judged afresh on this
+// message), and the oracle on what every connectable registration holds.
+
+type c07Msg struct {
+	cell c07Cell
+	live bool // what the liveness tester answers while this message is ingested
+	sess int  // which of the two shared secrets
+}
+
+func (w *c07World) runSeq(st c07Station, msgs []c07Msg, secrets [2][]byte) (string, string) {
+	rm := w.manager(st)
+	w.reset(rm)
+	var ms []string
+	for _, m := range msgs {
+		ms = append(ms, fmt.Sprintf("%s:%s%d", m.cell.String(), vlib.B(m.live), m.sess))
+	}
+	replay := "c07seq|" + st.String() + "/" + strings.Join(ms, "+") + "/" + hex.EncodeToString(secrets[0]) + "/" + hex.EncodeToString(secrets[1])
+	cfgLine := fmt.Sprintf("%s,%s,%s,%d %d,%s", vlib.B(st.e4), vlib.B(st.e6), vlib.B(st.share), int(pb.TransportType_Min), int(pb.TransportType_Prefix), c07BlocklistLine(st.block))
+	model := "c07s|" + cfgLine
+	var impls []string
+	var hist []c07Event
+	allSelOK := true
+	panicked := false
+	for j, m := range msgs {
+		c, secret := m.cell, secrets[m.sess]
+		stj := st
+		stj.live = m.live
+		w.live = m.live
+		tag := fmt.Sprintf("message %d of %d: ", j+1, len(msgs))
+		var raw []byte
+		if c.garbage {
+			raw = []byte{0x0a, 0xff, 0xff, 0xff}
+		} else {
+			var err error
+			if raw, err = proto.Marshal(c.wrapper(secret)); err != nil {
+				w.t.Fatal(err)
+			}
+		}
+		wire, selOK := w.wire(rm, stj, c, secret)
+		allSelOK = allSelOK && selOK
+		if c.garbage {
+			model += "|G"
+		} else {
+			cov := ""
+			if c.payload {
+				cov = c07Coverts[c.covert].addr
+			}
+			resolved := "-"
+			if got, _ := rm.ParseOrResolveBlocklisted(cov); got != "" {
+				resolved = "x" + hex.EncodeToString([]byte(got))
+			}
+			model += "|" + wire + ",x" + hex.EncodeToString([]byte(cov)) + "," + resolved
+		}
+		var fams [2]c07Fam
+		if !c.garbage {
+			fams = w.directBuild(rm, raw)
+		}
+		// the state of this message's registrations before it is ingested
+		var before, pass c07Pass
+		w.famStates(rm, fams, &before)
+		var shareFam [2]bool
+		for fi, v6 := range []bool{false, true} {
+			shareFam[fi] = !before.fam[fi].tracked && c07Expect(stj, c, v6).mayShare
+		}
+		w.rec.take()
+		w.ingestOne(rm, raw, shareFam, &pass)
+		w.famStates(rm, fams, &pass)
+		hist = append(hist, pass.evs...)
+		k := "-,-"
+		if !c.garbage {
+			k = fams[0].kind + "," + fams[1].kind
+		} else {
+			pass.state = "-,-"
+		}
+		impls = append(impls, k+";"+pass.parse+";"+pass.evsStr+";"+pass.state+";"+w.objects(rm))
+		if pass.parse == "panic" || strings.Contains(pass.evsStr, "panic") || fams[0].kind == "panic" || fams[1].kind == "panic" {
+			panicked = true
+		}
+		if allSelOK {
+			w.oraclePass(stj, c, fams, &pass, &before, replay, tag)
+			w.oracleStored(stj, rm, hist, replay, tag)
+		}
+		w.out.Count(fmt.Sprintf("sequence:message-%d:v4-%s:v6-%s", j+1, c07SeqKind(before.fam[0], pass.fam[0], fams[0]), c07SeqKind(before.fam[1], pass.fam[1], fams[1])))
+	}
+	if panicked {
+		w.out.OracleFail("C07:panic", "ingest panicked", replay)
+	}
+	if !allSelOK {
+		w.out.Count("assumption-broken:selector-wrong-family")
+	}
+	return model, strings.Join(impls, "|")
+}
+
+// what a message of a sequence was for one family (generator histogram)
+func c07SeqKind(before, after c07FamState, f c07Fam) string {
+	switch {
+	case f.reg == nil:
+		return "none"
+	case before.tracked && before.connect:
+		return "dup-of-connectable"
+	case before.tracked:
+		return "dup-of-dropped"
+	case after.connect:
+		return "new-admitted"
+	case after.tracked:
+		return "new-dropped"
+	}
+	return "new-not-tracked" // not attempted (family not enabled / not supported), or refused by ValidateRegistration
+}
+
+// c07Norm: NewRegistrationC2SWrapper writes the registrar's transport parameters into the payload; parseRegMessage never
+// calls it for a message without payload, and neither does the harness (its direct per-family construction would panic in
+// a call the station cannot make): such a cell loses its registrar response
+func c07Norm(c c07Cell) c07Cell {
+	if !c.payload && !c.garbage && c07Overrides[c.override].tparams != 0 {
+		c.override = 0
+	}
+	return c
+}
+
+// c07Mutate re-draws dimension dim of the cell (value v of that dimension; v is reduced modulo the number of values)
+const c07Dims = 13
+
+func c07Mutate(c c07Cell, dim, v int) c07Cell {
+	switch dim {
+	case 0:
+		c.registrant = v % len(c07Registrants)
+	case 1:
+		c.source = v % len(c07Sources)
+	case 2:
+		c.prescanned = !c.prescanned
+	case 3:
+		c.transport = v % len(c07Transports)
+	case 4:
+		c.gen = v % len(c07Gens)
+	case 5:
+		c.covert = v % len(c07Coverts)
+	case 6:
+		c.override = v % len(c07Overrides)
+	case 7:
+		c.disableOv = !c.disableOv
+	case 8:
+		c.v4s, c.v6s = v&1 == 1, v&2 == 2
+	case 9:
+		c.libver = uint32(1 + v%4)
+	case 10:
+		c.payload = !c.payload
+	case 11:
+		c.garbage = !c.garbage
+	case 12:
+		// a registrar response with transport parameters, on client parameters that do not parse
+		c.transport, c.override = 2, 10+v%2
+	}
+	return c07Norm(c)
+}
+
+func c07DimValues(dim int) int {
+	switch dim {
+	case 0:
+		return len(c07Registrants)
+	case 1:
+		return len(c07Sources)
+	case 3:
+		return len(c07Transports)
+	case 4:
+		return len(c07Gens)
+	case 5:
+		return len(c07Coverts)
+	case 6:
+		return len(c07Overrides)
+	case 8, 9:
+		return 4
+	case 12:
+		return 2
+	}
+	return 1
+}
+
+// ---------------------------------------------------------------------------------------------
 // two ingest workers receive copies of ONE message (the decoy registrar delivers a registration through
 // several decoys) and are interleaved at the scheduling points of ingestRegistration: whatever the
 // interleaving, the client registration is probed, shared and announced as often as a single message is.
@@ -1187,6 +1574,7 @@ func (w *c07World) runConcurrent(st c07Station, c c07Cell, secret []byte, schedu
 	wants := [2]c07Want{c07Expect(st, c, false), c07Expect(st, c, true)}
 	w.quiesce(wants[0].mayShare || wants[1].mayShare)
 	evs := w.rec.take()
+	w.oracleStored(st, rm, evs, replay, "two workers ingested copies of one message: ")
 	w.out.Checked()
 	w.out.Count("concurrent-copies:runs")
 	cnt := map[byte]int{}
@@ -1440,6 +1828,127 @@ func TestVerifC07(t *testing.T) {
 		}
 	}
 
+	// ---- sequences of messages of one session. Systematic part: from admitted base messages (every client family support,
+	// API- and detector-sourced, pre-scanned or not) ONE dimension of the other message is moved through ALL its values, in
+	// both orders (base first: the later message differs from the one that was admitted; base second: a message that was
+	// dropped or rejected is followed by one that would pass), with the liveness verdict of the later message flipped as well.
+	runSeq := func(st c07Station, msgs []c07Msg, secrets [2][]byte) {
+		m, i := w.runSeq(st, msgs, secrets)
+		out.Case(m, i, true)
+		out.Count(fmt.Sprintf("sequence:length-%d", len(msgs)))
+	}
+	var seqStations []c07Station
+	seqCore := func(st c07Station) bool { return (st.e4 && st.e6) || (st.share && st.block == 0) }
+	for _, st := range stations {
+		if st.live {
+			continue // the liveness verdict is per message here
+		}
+		if thorough || seqCore(st) {
+			seqStations = append(seqStations, st)
+		}
+	}
+	// corpus first: the session registers again with a covert address the policy refuses (and the other way round), with
+	// another port / phantom override, another registrant, as the copy a peer shares, after a dropped first attempt
+	for _, st := range []c07Station{{e4: true, e6: true}, {e4: true, e6: true, share: true}} {
+		for _, src := range []int{0, 1} {
+			b := c07Cell{payload: true, v4s: true, v6s: true, registrant: 1, source: src, transport: 0, gen: 0, libver: 4, covert: 0}
+			for _, mut := range [][2]int{{5, 1}, {5, 3}, {5, 4}, {6, 1}, {6, 7}, {0, 2}, {1, 2}, {2, 0}} {
+				m := c07Mutate(b, mut[0], mut[1])
+				sec := [2][]byte{c07Secret(r), c07Secret(r)}
+				runSeq(st, []c07Msg{{cell: b}, {cell: m}}, sec)
+				runSeq(st, []c07Msg{{cell: m}, {cell: b}}, sec)
+				runSeq(st, []c07Msg{{cell: b}, {cell: m}, {cell: b}}, sec)
+				runSeq(st, []c07Msg{{cell: b, live: true}, {cell: m}}, sec)
+			}
+		}
+	}
+	for _, st := range seqStations {
+		for _, sup := range [][2]bool{{true, true}, {true, false}, {false, true}} {
+			for _, baseSrc := range []int{0, 1} {
+				for _, ps := range []bool{false, true} {
+					b := c07Cell{payload: true, v4s: sup[0], v6s: sup[1], registrant: 1, source: baseSrc, transport: 0, gen: 0, libver: 4, covert: 0, prescanned: ps}
+					for dim := 0; dim < c07Dims; dim++ {
+						for v := 0; v < c07DimValues(dim); v++ {
+							m := c07Mutate(b, dim, v)
+							if m == b {
+								continue
+							}
+							sec := [2][]byte{c07Secret(r), c07Secret(r)}
+							runSeq(st, []c07Msg{{cell: b}, {cell: m}}, sec)
+							runSeq(st, []c07Msg{{cell: m}, {cell: b}}, sec)
+							if (thorough && seqCore(st)) || dim == 2 || dim == 5 {
+								runSeq(st, []c07Msg{{cell: b}, {cell: m, live: true}}, sec)
+								runSeq(st, []c07Msg{{cell: b, live: true}, {cell: m}}, sec)
+								runSeq(st, []c07Msg{{cell: b}, {cell: m}, {cell: b}}, sec)
+								runSeq(st, []c07Msg{{cell: m}, {cell: b}, {cell: m}}, sec)
+							}
+						}
+					}
+				}
+			}
+		}
+	}
+	// random part: 1–3 messages; the first is mostly admissible; each later message is the first with a random subset of its
+	// fields re-drawn (any value, valid or not), now and then a message of a second session; liveness verdict per message
+	randCell := func() c07Cell {
+		c := c07Cell{payload: true, libver: 4}
+		sup := r.Intn(3)
+		c.v4s, c.v6s = sup != 2, sup != 1
+		c.registrant = []int{1, 1, 5, 2, 0}[r.Intn(5)]
+		c.source = r.Intn(len(c07Sources))
+		c.transport = []int{0, 0, 3}[r.Intn(3)]
+		c.gen = []int{0, 0, 4, 1, 2}[r.Intn(5)]
+		c.prescanned = r.Chance(1, 3)
+		c.covert = []int{0, 0, 3, 4}[r.Intn(4)]
+		if r.Chance(1, 4) {
+			c.override = r.Intn(len(c07Overrides))
+		}
+		c.disableOv = r.Chance(1, 5)
+		if r.Chance(1, 5) {
+			c = c07Mutate(c, r.Intn(c07Dims), r.Intn(64))
+		}
+		return c
+	}
+	var allSeqStations, openSeqStations []c07Station // every station; those without a phantom blocklist
+	for _, st := range stations {
+		if !st.live {
+			allSeqStations = append(allSeqStations, st)
+			if st.block == 0 {
+				openSeqStations = append(openSeqStations, st)
+			}
+		}
+	}
+	for k, nk := 0, vlib.Budget(6000, 50000); k < nk; k++ {
+		st := allSeqStations[r.Intn(len(allSeqStations))]
+		if r.Bool() {
+			st = openSeqStations[r.Intn(len(openSeqStations))]
+		}
+		b := randCell()
+		n := []int{1, 2, 2, 2, 2, 3, 3, 3, 3, 3}[r.Intn(10)]
+		msgs := []c07Msg{{cell: b, live: r.Chance(1, 5)}}
+		for len(msgs) < n {
+			m := b
+			changed := 0
+			for dim := 0; dim < c07Dims; dim++ {
+				p := 4
+				if dim >= 10 {
+					p = 24
+				}
+				if r.Chance(1, p) {
+					m = c07Mutate(m, dim, r.Intn(64))
+					changed++
+				}
+			}
+			out.Count(fmt.Sprintf("sequence:later-message-differs-in-%d-dimensions", changed))
+			sess := 0
+			if r.Chance(1, 8) {
+				sess = 1
+			}
+			msgs = append(msgs, c07Msg{cell: m, live: r.Chance(1, 4), sess: sess})
+		}
+		runSeq(st, msgs, [2][]byte{c07Secret(r), c07Secret(r)})
+	}
+
 	// ---- the table; the second message of the session cycles through its kinds
 	for _, st := range stations {
 		for _, sup := range [][2]bool{{true, true}, {true, false}, {false, true}, {false, false}} {
@@ -1448,7 +1957,7 @@ func TestVerifC07(t *testing.T) {
 					for _, tr := range pick(2, len(c07Transports)) {
 						for _, g := range pick(4, len(c07Gens)) {
 							for _, ps := range []bool{false, true} {
-								for _, cv := range pick(2, len(c07Coverts)) {
+								for _, cv := range pick(2, 3) {
 									for _, ov := range pick(3, 5) {
 										run(st, c07Cell{payload: true, v4s: sup[0], v6s: sup[1], registrant: rg, source: src, transport: tr, gen: g, libver: 4, prescanned: ps, covert: cv, override: ov,
 											dup: ncell % c07DupKinds})
@@ -1522,6 +2031,46 @@ func c07Replay(w *c07World, path string) {
 			w.runConcurrent(st, c, secret, sch)
 			fmt.Printf("REPLAY two workers ingest copies of one message, schedule %s; station: v4=%v v6=%v share=%v blocklist=%v live=%v; message: v4support=%v v6support=%v source=%s prescanned=%v covert=%q\n",
 				p[3], st.e4, st.e6, st.share, c07Blocklists[st.block], st.live, c.v4s, c.v6s, c07Sources[c.source], c.prescanned, c07Coverts[c.covert].addr)
+			continue
+		}
+		if strings.HasPrefix(line, "c07seq|") {
+			p := strings.Split(strings.TrimPrefix(line, "c07seq|"), "/")
+			if len(p) != 4 {
+				w.t.Fatalf("bad replay line %q", line)
+			}
+			var st c07Station
+			var msgs []c07Msg
+			for _, ms := range strings.Split(p[1], "+") {
+				f := strings.Split(ms, ":")
+				if len(f) != 2 || len(f[1]) != 2 || f[1][1] < '0' || f[1][1] > '1' {
+					w.t.Fatalf("bad replay line %q", line)
+				}
+				var c c07Cell
+				var err error
+				if st, c, err = c07ParseReplay(p[0] + "/" + f[0]); err != nil {
+					w.t.Fatal(err)
+				}
+				msgs = append(msgs, c07Msg{cell: c, live: f[1][0] == '1', sess: int(f[1][1] - '0')})
+			}
+			var secrets [2][]byte
+			secrets[0], _ = hex.DecodeString(p[2])
+			secrets[1], _ = hex.DecodeString(p[3])
+			m, i := w.runSeq(st, msgs, secrets)
+			w.out.Case(m, i, true)
+			fmt.Printf("REPLAY sequence of %d message(s); station: v4=%v v6=%v share=%v blocklist=%v covert blocklist=%s\n", len(msgs), st.e4, st.e6, st.share, c07Blocklists[st.block], c07CovertBlocklist)
+			for k, mm := range msgs {
+				cc := mm.cell
+				if cc.garbage {
+					fmt.Printf("REPLAY message %d: undecodable bytes\n", k+1)
+					continue
+				}
+				fmt.Printf("REPLAY message %d: session=%d liveness-verdict=%v payload=%v v4support=%v v6support=%v registrant=%s source=%s transport=%s generation=%d libver=%d prescanned=%v covert=%q override=%s disable_registrar_overrides=%v\n",
+					k+1, mm.sess, mm.live, cc.payload, cc.v4s, cc.v6s, c07Registrants[cc.registrant].name, c07Sources[cc.source], c07Transports[cc.transport].name, c07Gens[cc.gen].gen, cc.libver, cc.prescanned, c07Coverts[cc.covert].addr, c07Overrides[cc.override].name, cc.disableOv)
+			}
+			fmt.Println("REPLAY model-line:", m)
+			for k, a := range strings.Split(i, "|") {
+				fmt.Printf("REPLAY impl after message %d: %s\n", k+1, a)
+			}
 			continue
 		}
 		if !strings.HasPrefix(line, "c07cell|") {
